@@ -272,7 +272,10 @@ def sparse_strategy(tier):
     """Many short shots over two registers: registers missing from the first shot, appearing later, with
     other lengths, in any combination of the strict flags."""
     sparse = st.lists(st.lists(st.tuples(st.sampled_from(["a", "b", "a[2]", "b[0]", "a[0]"]), good_value).map(list), max_size=3), min_size=3, max_size=6)
-    return st.fixed_dictionaries({"shots": sparse, "strict_names": st.booleans(), "strict_lengths": st.booleans()})
+    # the same registers written in another order by every shot (same register set, same lengths)
+    one = st.lists(st.tuples(st.sampled_from(["a", "b", "c0", "a[1]", "b[0]"]), good_value).map(list), min_size=2, max_size=4)
+    permuted = one.flatmap(lambda es: st.lists(st.permutations(es), min_size=2, max_size=4).map(lambda ps: [list(p) for p in ps]))
+    return st.fixed_dictionaries({"shots": st.one_of(sparse, sparse, permuted), "strict_names": st.booleans(), "strict_lengths": st.booleans()})
 
 
 SUBS = [Sub("sparse-shots", check, strategy=sparse_strategy, nontrivial=nontrivial, classes=classes, n_quick=1200, n_thorough=10000), Sub("shots", check, fuzz_runs=10000, strategy=strategy, nontrivial=nontrivial, classes=classes, n_quick=2500, n_thorough=25000)]
